@@ -217,6 +217,8 @@ theorem opathLoop_safe (m : Option Nat) (oflags rflags : Nat) (cur : Fd) (rem : 
 theorem opathResolve_safe (root : Fd) (path : Bytes) (oflags rflags : Nat) (hr : 0 ≤ root) :
     Safe (Disc b) (Procfs.opathResolve root path oflags rflags) FdOk := by
   unfold Procfs.opathResolve
+  split
+  · exact FdOk_err _
   apply Safe.mbind (Q' := fun _ => True) (fetchMntId_safe root [] hr single_nil)
   · intro m _
     apply Safe.mbind (Q' := FdOk) (dup_safe root)
@@ -242,9 +244,7 @@ theorem ProcHOk_err : ErrOk ProcHOk := fun e h hh => by cases hh
 theorem fstatOrPanic_safe (inner : Fd) (hi : 0 ≤ inner) :
     Safe (Disc b) (Procfs.fstatOrPanic inner) (fun _ => True) := by
   unfold Procfs.fstatOrPanic
-  apply Safe.mbind (Q' := fun _ => True) (try_any (fstatat_safe inner [] hi (Or.inl single_nil)))
-  · intro r _; split <;> exact trivial
-  · intro _ _; trivial
+  exact onErr_any (fstatat_safe inner [] hi (Or.inl single_nil)) (close_safe _)
 
 theorem missing_safe (inner : Fd) (name : Bytes) (hi : 0 ≤ inner) (hn : single name) :
     Safe (Disc b) (Procfs.missing inner name) (fun _ => True) := by
@@ -306,7 +306,7 @@ theorem fdcall_safe (c : Call) (hc : Disc b c) (site : String) :
 
 theorem fsopen_safe : Safe (Disc b) (Sys.fsopen b!"proc" FSOPEN_CLOEXEC) FdOk := by
   unfold Sys.fsopen
-  exact fdcall_safe (.fsopen b!"proc" FSOPEN_CLOEXEC) rfl _
+  exact fdcall_safe (.fsopen b!"proc" FSOPEN_CLOEXEC) ⟨rfl, by decide⟩ _
 
 theorem fsconfigSetString_safe (sfd : Fd) (k v : Bytes) (hs : 0 ≤ sfd) :
     Safe (Disc b) (Sys.fsconfigSetString sfd k v) (fun _ => True) := by
@@ -334,10 +334,10 @@ theorem fsconfigCreate_safe (sfd : Fd) (hs : 0 ≤ sfd) :
   · intro _ _; exact unitCall_safe (.fsconfigCreate sfd) _ _ hs
   · intro _ _; trivial
 
-theorem fsmount_safe (sfd : Fd) (f a : Nat) (hs : 0 ≤ sfd) :
+theorem fsmount_safe (sfd : Fd) (f a : Nat) (hs : 0 ≤ sfd) (hf : hasAll f FSMOUNT_CLOEXEC = true) :
     Safe (Disc b) (Sys.fsmount sfd f a) FdOk := by
   unfold Sys.fsmount
-  apply wrapper_safe sfd (.fsmount sfd f a) _ FdOk FdOk_err (fun _ => hs)
+  apply wrapper_safe sfd (.fsmount sfd f a) _ FdOk FdOk_err (fun _ => ⟨hs, hf⟩)
   intro r hr
   split
   · intro fd h; cases h; exact hr
@@ -354,7 +354,7 @@ theorem newFsopen_safe (env : Env) (subset : Bool) :
     · intro _ _
       apply Safe.mbind (Q' := fun _ => True) (onErr_any (fsconfigCreate_safe sfd hs) (close_safe _))
       · intro _ _
-        apply Safe.mbind (Q' := FdOk) (onErr_fd (fsmount_safe sfd _ _ hs) (close_safe _))
+        apply Safe.mbind (Q' := FdOk) (onErr_fd (fsmount_safe sfd _ _ hs (by decide)) (close_safe _))
         · intro mnt hmnt
           apply ProcH_bind (Safe.onErr (tryFromFd_safe env mnt (hmnt mnt rfl)) (close_safe _)
             (fun _ e' _ => ProcHOk_err e'))
@@ -370,9 +370,11 @@ theorem newFsopen_safe (env : Env) (subset : Bool) :
 theorem newOpenTree_safe (env : Env) (flags : Nat) :
     Safe (Disc b) (Procfs.newOpenTree env flags) ProcHOk := by
   unfold Procfs.newOpenTree
-  have hopen : Safe (Disc b) (Sys.openTree AT_FDCWD b!"/proc" (OPEN_TREE_CLONE ||| flags)) FdOk := by
+  have hcx : hasAll (OPEN_TREE_CLONE ||| OPEN_TREE_CLOEXEC ||| flags) OPEN_TREE_CLOEXEC = true :=
+    hasAll_or_mono _ _ _ (by decide)
+  have hopen : Safe (Disc b) (Sys.openTree AT_FDCWD b!"/proc" (OPEN_TREE_CLONE ||| OPEN_TREE_CLOEXEC ||| flags)) FdOk := by
     unfold Sys.openTree
-    apply wrapper_safe AT_FDCWD (.openTree AT_FDCWD b!"/proc" (OPEN_TREE_CLONE ||| flags)) _ FdOk FdOk_err (fun _ => ⟨rfl, rfl⟩)
+    apply wrapper_safe AT_FDCWD (.openTree AT_FDCWD b!"/proc" (OPEN_TREE_CLONE ||| OPEN_TREE_CLOEXEC ||| flags)) _ FdOk FdOk_err (fun _ => ⟨rfl, rfl, hcx⟩)
     intro r hr
     split
     · intro fd h; cases h; exact hr
@@ -510,6 +512,8 @@ theorem asUnsafePath_safe (env : Env) (fd : Fd) (hp : 0 ≤ env.proc.fd) :
 theorem openFollowH_safe (env : Env) (h : ProcH) (base : Procfs.Base) (subpath : Bytes) (oflags : Nat)
     (hh : 0 ≤ h.fd) : Safe (Disc true) (Procfs.openFollowH env h base subpath oflags) FdOk := by
   unfold Procfs.openFollowH
+  split
+  · exact FdOk_err _
   dsimp only
   apply Safe.mbind (Q' := fun _ => True) (isOk_safe (readlinkH_safe env h base _ hh))
   · intro isLink _
